@@ -122,6 +122,14 @@ func Open(path string, freeList *freelist.FreeList, fileCache *filecache.FileCac
 			return nil, types.ErrPrimaryWrongFileSize{header.MaxFileSize, maxFileSize}
 		}
 
+		// If an upgrade was interrupted after writing the header, but before
+		// removing the old primary file, then remove the old file now.
+		if fi, statErr := os.Stat(path); statErr == nil && fi.Mode().IsRegular() {
+			if err = os.Remove(path); err != nil {
+				return nil, fmt.Errorf("cannot remove old primary: %w", err)
+			}
+		}
+
 		// Find last primary file.
 		lastPrimaryNum, err = findLastPrimary(path, header.FirstFile)
 		if err != nil {
